@@ -55,7 +55,7 @@ impl<T: ToVal> ToVal for std::collections::HashMap<String, T> {
     }
 }
 macro_rules! tok {
-    ($($t:ty),*) => { $(impl ToVal for $t { fn to_val(&self) -> Val { Val::Tok(quote::ToTokens::to_token_stream(self).to_string()) } })* };
+    ($($t:ty),*) => { $(impl ToVal for $t { fn to_val(&self) -> Val { Val::Tok(crate::run::show(self)) } })* };
 }
 tok!(syn::Ident, syn::Visibility, syn::Type, syn::Attribute, syn::Expr, syn::TypeParamBound, syn::Path, syn::LifetimeParam, syn::ConstParam, syn::TypeParam, syn::WhereClause, syn::GenericParam, syn::Field, syn::Variant);
 
@@ -96,7 +96,7 @@ impl<T: ToVal> ToVal for darling::util::SpannedValue<T> {
 }
 impl<T: ToVal, O: quote::ToTokens> ToVal for darling::util::WithOriginal<T, O> {
     fn to_val(&self) -> Val {
-        Val::Rec(vec![("parsed".into(), self.parsed.to_val()), ("original".into(), Val::Tok(self.original.to_token_stream().to_string()))])
+        Val::Rec(vec![("parsed".into(), self.parsed.to_val()), ("original".into(), Val::Tok(crate::run::show(&self.original)))])
     }
 }
 impl<T: ToVal> ToVal for darling::ast::Fields<T> {
